@@ -62,14 +62,19 @@ def env():
     orig_build = P.ModelBuilder.build
 
     def build(self, tree, model_type):
-        cap['tokens'], cap['tree'] = list(self._tokens), tree
-        cap['index'] = dict(self._token_to_index)
+        try:
+            cap['tokens'], cap['tree'] = list(self._tokens), tree
+            cap['index'] = dict(self._token_to_index)
+        except Exception as ex:  # the builder no longer has the attributes Builder.v was written for
+            cap['instr_error'] = repr(ex)
         model = orig_build(self, tree, model_type)
-        cap['built'] = list(self._built_tokens)
-        store = list(model.token_store)
-        idx = {id(t): i for i, t in enumerate(store)}
-        cap['root'] = (idx.get(id(model.first_token), -1), idx.get(id(model.last_token), -1))
-        cap['store_after_build'] = store
+        try:
+            cap['built'] = list(self._built_tokens)
+            store = list(model.token_store)
+            idx = {id(t): i for i, t in enumerate(store)}
+            cap['root'] = (idx.get(id(model.first_token), -1), idx.get(id(model.last_token), -1))
+        except Exception as ex:
+            cap['instr_error'] = repr(ex)
         return model
     P.ModelBuilder.build = build
     names = sorted(set(t.name for t in P.Parser()._lark.terminals) | set(models.TOKEN_MODELS) | set(FIXED))
@@ -157,13 +162,18 @@ def observe(text: str, rule: str, acc: bool) -> Optional[Obs]:
     o = Obs()
     o.text, o.rule, o.acc, o.model = text, rule, acc, model
     o.is_file = target is e['models'].File
-    o.postlex = cap['postlex']
-    o.lex_in = [(t.type, str(t)) for t in cap['in']]
-    o.lex_out = [(t.type, str(t)) for t in cap['tokens']]
-    o.out_teed = [(t.type, str(t)) for t in cap['out']]
-    o.tree = conv_tree(cap['tree'], cap['index'])
-    o.built = [(type(t).RULE, t.raw_text) for t in cap['built']]
-    o.root = cap['root']
+    o.instr_error = cap.get('instr_error')
+    try:
+        o.postlex = cap['postlex']
+        o.lex_in = [(t.type, str(t)) for t in cap['in']]
+        o.lex_out = [(t.type, str(t)) for t in cap['tokens']]
+        o.out_teed = [(t.type, str(t)) for t in cap['out']]
+        o.tree = conv_tree(cap['tree'], cap['index'])
+        o.built = [(type(t).RULE, t.raw_text) for t in cap['built']]
+        o.root = cap['root']
+    except Exception as ex:
+        o.instr_error = o.instr_error or repr(ex)
+        o.lex_out = []
     o.store = list(model.token_store)
     return o
 
@@ -498,6 +508,11 @@ CORPUS = [
     ('number_expr', ' 1 + 2 '), ('open', '; lead\n2000-01-01 open Assets:Foo\n; trail'),
     ('transaction', '2000-01-01 * "foo" "bar" #baz ^qux ; quux\n    aaa1: 123 + 456 ; aaa2\n    Assets:Foo   100.00 USD\n'
                     '        ccc1: "ccc2" ; ccc3\n    Assets:Bar  -100.00 USD\n    eee1: "eee2" ; eee3'),
+    ('file', '2000-01-01 * ; c\r\n  Assets:Foo ; x\r\n  Assets:Bar  1 USD;y\r\n'),
+    ('file', '2000-01-01 *\n  Assets:Foo\n   \n'), ('file', '2000-01-01 *\n  Assets:Foo\n; unindented\n'),
+    ('file', '2000-01-01 *\n  aa: 1\n    ; deeper\n  Assets:Foo\n      ; deeper still\n    bb: 2\n ; shallower\n'),
+    ('file', '\n\n  \n; a\n\n; b\n  ; c\n; d'), ('file', '* h\r\r\n\r\r\n; c\r\r\n'),
+    ('file', '2000-01-01 open Assets:Foo USD , EUR,GBP   "STRICT"   ; c  \n'),
     ('posting', '    Assets:Foo  1 USD'), ('posting', 'Assets:Foo'), ('meta_item', '  aa: 1'),
 ]
 
@@ -508,11 +523,11 @@ def gen_inputs(ctx):
     for rule, text in CORPUS:
         yield rule, text, 'corpus'
     rules = sorted(e['targets'])
-    n_led = ctx.scale(160, 900)
+    n_led = ctx.scale(160, 2500)
     for k in range(n_led):
         g = Gen(ctx.rng)
         yield 'file', g.ledger(ctx.rng.choice([1, 2, 3, 5, 8] if ctx.quick else [1, 3, 6, 12, 25])), 'ledger'
-    per_rule = ctx.scale(5, 30)
+    per_rule = ctx.scale(5, 60)
     for rule in rules:
         if rule == 'file':
             continue
@@ -671,6 +686,11 @@ def run_cases(ctx, inputs, record=True):
                     if v:
                         ctx.dist('feature=' + k)
                 ctx.count('submodels_checked', len(spans))
+            if o.instr_error:
+                ctx.fail('tie', 'instrumentation', 'PostLex/ModelBuilder can no longer be observed the way Builder.v '
+                         'assumes (attributes _tokens/_token_to_index/_built_tokens, process())',
+                         {'error': o.instr_error, 'text': text, 'target': rule, 'auto_claim_comments': acc})
+                continue
             if o.out_teed != o.lex_out:
                 ctx.fail('corr', 'stream-not-kept', 'ModelBuilder did not receive exactly the stream leaving '
                          'PostLex.process', {'text': text, 'target': rule, 'auto_claim_comments': acc})
